@@ -34,7 +34,8 @@ MANIFEST = {
     "text": "subquery(G,P[,E]) is specified as the conditional probability Sem.run prog [G] E (num/z). The Lean file proves "
             "that this value is the one `Sem.run` gives G inside any larger query list with the same evidence "
             "(C08's independence theorem), so comparing a subquery's answer with a top-level run that asks several "
-            "queries at once is comparing the same specification value. The builtin itself (a fresh engine grounding "
+            "queries at once is comparing the same specification value; and that under valid annotations the specified "
+            "value lies in [0,1] whenever it is defined (C26_spec_in_unit_interval). The builtin itself (a fresh engine grounding "
             "into a fresh formula, evidence list labelled evidence+, default evaluator/semiring) is not modelled; it is "
             "tied extensionally: bound P vs the real top-level answer vs Sem on every generated program (ground and "
             "non-ground goals, goals bound by a generator literal, subquery/2 and subquery/3 with empty, positive and "
@@ -280,6 +281,7 @@ def run(ctx):
                 "a case = one program (wrapped run + top-level run + Sem); non-trivial = more than one world and at least "
                 "one goal instance with probability strictly between 0 and 1")
     ctx.proof_phase(MODULE, THEOREMS)
+    ctx.proof_phase("ProbLogProofs.Properties.C01SemProb", ["ProbLogProofs.C01.C26_spec_in_unit_interval"])
     drv = ctx.driver("Drivers.Spine")
     if drv is None:
         return ctx.finish("other")
